@@ -292,6 +292,13 @@ def run(ctx):
     # generated programs: control-flow and type/resource shapes the corpus does not contain
     nprog = ctx.scale(100, 1500)
     progs = c02gen.programs(ctx.rng.fork("gen"), nprog)
+    # typed compute programs of the shared generator (helper calls in loops and continuing blocks, a helper
+    # that is the sole user of a buffer, forward references): half of them rendered entry-point-first
+    import wgslgen
+    grng = ctx.rng.fork("wgslgen")
+    for i in range(ctx.scale(30, 400)):
+        prog, _src = wgslgen.generate(grng.fork("p%d" % i))
+        progs.append(("wgslgen%d" % i, wgslgen.render(prog, reverse=(i % 2 == 1))))
     # every generated program under a rotating subset of option sets
     per = ctx.scale(2, 4)
     rng = ctx.rng.fork("genopts")
